@@ -17,7 +17,7 @@ name is numbered, the group of the removed item keeps its now stale suffixes).
 """
 import re
 
-from .models import NameModel, same
+from .models import NameModel, same, useful
 
 SUFFIXED = re.compile(r":\d+$")
 
@@ -95,6 +95,16 @@ def model_apply(m, op):
         m.delete(op[1])
         m.insert(op[1], op[2])
         return old, op[2]
+    if k == "move":
+        # the item OBJECT at position i is taken out and inserted again at pos: it arrives with the session name it
+        # carried; the documented rule renumbers its name group when the group has more than one member
+        if not 0 <= op[1] < n or not 0 <= op[2] <= n - 1:
+            raise LookupError(op)
+        pair = m.items[op[1]]
+        m.delete(op[1])
+        m.items.insert(op[2], pair)
+        m.renumber(useful(pair[0]))
+        return None, None
     raise ValueError("unknown operation %r" % (op,))
 
 
@@ -117,6 +127,8 @@ def list_apply(objs, op, new, find):
             objs[i] = new
     elif k == "rci":
         objs[op[1]] = new
+    elif k == "move":
+        objs.insert(op[2], objs.pop(op[1]))
 
 
 def distinct(seq):
@@ -275,6 +287,14 @@ class Driver(object):
             s[op[1]] = new
         elif k == "rci":
             las.replace_curve_item(op[1], new)
+        elif k == "move":
+            it = list.__getitem__(s, op[1])
+            if las is not None:
+                las.delete_curve(ix=op[1])
+                las.insert_curve_item(op[2], it)
+            else:
+                del s[op[1]]
+                s.insert(op[2], it)
         else:
             raise ValueError("unknown operation %r" % (op,))
         list_apply(self.objs, op, new, lambda key: pos)
